@@ -89,10 +89,24 @@ class PyInterp:
 
     NAMED = {"largest": sys.float_info.max, "smallest": sys.float_info.min, "posinf": math.inf, "neginf": -math.inf, "pi": math.pi}
 
+    def alt_eval(self, v):
+        """Value of a constant expression of the alternative context (no free symbols: its symbols only
+        carry the constant type)."""
+        memo = {}
+
+        def ev(x):
+            if id(x) not in memo:
+                if x.kind == "symbol":
+                    raise Uninterpretable("symbol used as a value in the alternative context")
+                memo[id(x)] = self.node(x, ev)
+            return memo[id(x)]
+
+        return ev(v)
+
     def const(self, e):
         v = e.operands[0]
         if isinstance(v, self.Expr):
-            raise Uninterpretable("alt-context constant")
+            return self.alt_eval(v)
         if isinstance(v, str):
             if v not in self.NAMED:
                 raise Uninterpretable("named constant " + v)
@@ -301,7 +315,17 @@ class NpInterp:
             v, like = e.operands
             dt = self.dtype_of(like)
             if isinstance(v, self.Expr):
-                raise Uninterpretable("alt-context constant")
+                # printed as dtype_of_like(<the alt expression evaluated in the alt context's own dtypes>)
+                memo = {}
+
+                def aev(x):
+                    if id(x) not in memo:
+                        if x.kind == "symbol":
+                            raise Uninterpretable("symbol used as a value in the alternative context")
+                        memo[id(x)] = self.node(x, aev)
+                    return memo[id(x)]
+
+                return dt(aev(v))
             if isinstance(v, str):
                 if dt not in (np.float16, np.float32, np.float64, np.complex64, np.complex128):
                     raise Uninterpretable("named constant of dtype %s" % dt)
@@ -448,7 +472,20 @@ class CInterp:
         if k == "constant":
             v, like = e.operands
             if isinstance(v, self.Expr):
-                raise Uninterpretable("alt-context constant")
+                if not self.is_double(like):
+                    raise Uninterpretable("alt-context constant of a non-double like")
+                memo = {}
+
+                def aev(x):
+                    if id(x) not in memo:
+                        if x.kind == "symbol":
+                            raise Uninterpretable("symbol used as a value in the alternative context")
+                        if x.kind == "constant" and not isinstance(x.operands[0], self.Expr) and not self.is_double(x.operands[1]):
+                            raise Uninterpretable("alternative context constant type")
+                        memo[id(x)] = self.node(x, aev)
+                    return memo[id(x)]
+
+                return aev(v)
             if not self.is_double(like) and not self.is_cdouble(like):
                 raise Uninterpretable("constant like of type %s" % like.get_type())
             if isinstance(v, str):
